@@ -11,6 +11,9 @@ struct Env {
     k1: bool,
     k3: bool,
     k10: bool,
+    /// which of the two properties this campaign decides (VERIF_FUZZ_PROPS, set by run.sh; default both)
+    c02: bool,
+    c04: bool,
 }
 static ENV: OnceLock<Env> = OnceLock::new();
 
@@ -21,8 +24,11 @@ fuzz_target!(|data: &[u8]| {
     let env = ENV.get_or_init(|| {
         let kf = KnownFindings::load();
         let o = |k: &str| kf.is_open("C02", k);
+        let props = std::env::var("VERIF_FUZZ_PROPS").unwrap_or_default();
         Env {
-            open: c02::Open { k: [o(c02::K1), o(c02::K2), o(c02::K3), o(c02::K4), o(c02::K5), o(c02::K9), o(c02::K11)] },
+            c02: props.is_empty() || props.contains("C02"),
+            c04: props.is_empty() || props.contains("C04"),
+            open: c02::Open { k: [o(c02::K1), o(c02::K2), o(c02::K3), o(c02::K4), o(c02::K5), o(c02::K9), o(c02::K11), o(c02::K12)] },
             denc: c02::default_encoding(),
             k1: kf.is_open("C04", c04::K1),
             k3: kf.is_open("C04", c04::K3),
@@ -30,8 +36,13 @@ fuzz_target!(|data: &[u8]| {
         }
     });
     let text = rosu_verif::refmodel::framing::decode_bytes(data);
-    if let c02::Judgement::Fail(m) = c02::judge(&text, &env.open, &env.denc) {
-        panic!("VERIF-VIOLATION C02: {m}");
+    if env.c02 {
+        if let c02::Judgement::Fail(m) = c02::judge(&text, &env.open, &env.denc) {
+            panic!("VERIF-VIOLATION C02: {m}");
+        }
+    }
+    if !env.c04 {
+        return;
     }
     if let Ok(m1) = rosu_map::from_bytes::<rosu_map::Beatmap>(data) {
         if rosu_verif::props::c01::predicted_events(&m1) <= 2.0e6 {
